@@ -17,7 +17,8 @@ BUDGET = {"quick": 300, "thorough": 1500}
 BINOPS = ["+", "-", "*", "/", "%", "&", "|", "^", "<<", ">>", "<", "<=", ">", ">=", "==", "!=", "&&", "||"]
 UNOPS = ["-", "~", "!", "+"]
 GENERIC = "_Bool:0, char:1, short:2, int:3, long:4, unsigned char:5, unsigned short:6, unsigned int:7, unsigned long:8, default:99"
-POSITIONS = ["array-bound", "local-static-array-bound", "case-label", "enumerator", "bitfield-width", "alignas", "designator-index"]
+POSITIONS = ["array-bound", "local-static-array-bound", "case-label", "enumerator", "bitfield-width", "alignas", "designator-index",
+             "case-label-of-narrow-switch"]
 
 
 def values(t, kind):
@@ -122,6 +123,16 @@ def gen_float_cases(tier):
             tr = int(v)
             if t == 0 or cint.fits(tr, t):
                 out.append(("f/cast/%s<-%s" % (TN[t], FT[ta]), "((%s)%s)" % (TYPES[t], a), "I"))
+    # double arithmetic folded in a wider format and rounded twice is off by one ulp for about 1 in 2000 operand pairs:
+    # a dense family of quotients and products makes that visible (and checks FLT_EVAL_METHOD 0 folding in general)
+    nb = 200 if tier == "quick" else 500
+    for a in range(1, 41):
+        for b in range(2001, 2001 + 2 * nb, 2):
+            out.append(("f/dense/div/double", "(%d.0 / %d.0)" % (a, b), "d"))
+    for a in range(1, 41):
+        for b in range(1, nb // 2):
+            out.append(("f/dense/mul/double", "(0.%03d * %d.%d)" % (a * 7 + 1, b % 17 + 1, b), "d"))
+            out.append(("f/dense/add/double", "(0.%03d + %d.%de-3)" % (a * 7 + 1, b % 17 + 1, b), "d"))
     ints = [(cint.lit(v, t), t) for t in range(9) for v in values(t, "tiny")]
     ints += [(cint.lit(v, t), t) for t in (3, 4, 7, 8) for v in (16777217, 2147483647, 4294967295, 9007199254740993, 9223372036854775807, 18446744073709551615, -16777217, -9007199254740993) if cint.fits(v, t)]
     for (s, t) in ints:
@@ -173,6 +184,7 @@ def build_pos_batch(cases):
         u.append("char FN(ab%d)[%s];" % (i, A))
         u.append("long FN(lsab%d)(void) { static char a[%s]; return sizeof(a); }" % (i, A))
         u.append("int FN(sw%d)(long v) { switch (v) { case %s: return 1; case 40: return 2; } return 0; }" % (i, A))
+        u.append("int FN(swn%d)(unsigned char v) { switch (v) { case %s + 256: return 1; case 40: return 2; } return 0; }" % (i, A))
         u.append("enum { FN(en%d) = %s };" % (i, A))
         u.append("struct FN(bf%d) { unsigned long f : %s; };" % (i, A))
         u.append("long FN(bfw%d)(void) { struct FN(bf%d) s; s.f = -1; return s.f; }" % (i, i))
@@ -182,14 +194,14 @@ def build_pos_batch(cases):
         "{sizeof(FN(ab%d)), 0, 0, FN(en%d), 0, sizeof(struct FN(al%d)), 0, 0}" % (i, i, i) for i in range(n)))
     u.append("void FN(posrt)(long (*o)[8]) {\n%s\n}" % "\n".join(
         "o[%d][1] = FN(lsab%d)(); o[%d][2] = FN(sw%d)(%d) * 10 + FN(sw%d)(%d); o[%d][4] = FN(bfw%d)(); "
-        "{ int k; for (k = 0; k < 20 && FN(ad%d)[k] != 7; k++); o[%d][6] = k; }" % (i, i, i, i, w, i, w + 1 if w + 1 != 40 else 41, i, i, i, i)
+        "{ int k; for (k = 0; k < 20 && FN(ad%d)[k] != 7; k++); o[%d][6] = k; } o[%d][7] = FN(swn%d)(%d);" % (i, i, i, i, w, i, w + 1 if w + 1 != 40 else 41, i, i, i, i, i, i, w)
         for i, (cid, tree, w) in enumerate(cases)))
     d.append("extern long cc_pos[][8], ref_pos[][8]; void cc_posrt(long (*)[8]), ref_posrt(long (*)[8]);")
     d.append("static const long want[][8] = {%s};" % ",".join(
         "{%d,%d,10,%d,%d,%d,%d,0}" % (w, w, w, (1 << w) - 1, 2 * (1 << al), w) for (cid, tree, w), al in cases_al(cases)))
     d.append("static long a[%d][8], b[%d][8];" % (n, n))
     d.append("int main(void) { int n = %d; cc_posrt(a); ref_posrt(b);" % n)
-    d.append(" for (int i = 0; i < n; i++) for (int p = 0; p < 7; p++) { long c = (p == 0 || p == 3 || p == 5) ? cc_pos[i][p] : a[i][p], r = (p == 0 || p == 3 || p == 5) ? ref_pos[i][p] : b[i][p];")
+    d.append(" for (int i = 0; i < n; i++) for (int p = 0; p < 8; p++) { long c = (p == 0 || p == 3 || p == 5) ? cc_pos[i][p] : a[i][p], r = (p == 0 || p == 3 || p == 5) ? ref_pos[i][p] : b[i][p];")
     d.append("  if (r != want[i][p]) { printf(\"O %d %d ref=%ld want=%ld\\n\", i, p, r, want[i][p]); continue; }")
     d.append("  if (c != want[i][p]) printf(\"P %d %d got=%ld want=%ld\\n\", i, p, c, want[i][p]); }")
     d.append(" return 0; }")
@@ -354,7 +366,7 @@ def run(ctx):
                 continue
             if res["code"] != 0:
                 raise core.HarnessError("driver crashed in %s: %s %s" % (name, res["code"], res["stderr"][-300:]))
-            judged += len(cases) * (7 if kind == "pos" else 1)
+            judged += len(cases) * (8 if kind == "pos" else 1)
             for c in cases:
                 classes.add(c[0])
             for line in res["stdout"].splitlines():
